@@ -263,13 +263,24 @@ def schema(chk, repo, pid):
            rets[0] if rets else None)
     # points as tuples keep their coordinate order
     v = FV(repo, "util.util.array2tuple")
+    v.ev.exact = True           # (conversions are kept apart in this view: .item(), .tolist(), tuple())
+    v.ev.alias_mode = True
     rets = [r for r in v.returns() if r.value is not None]
     ok = False
     if len(rets) == 1:
-        mem = phi_members(v.ctx, v.ev.term(rets[0].value, at=rets[0]))
-        want = [v.spec("array.item()"), v.spec("tuple(array.tolist())")]
-        ok = all(any(v.eq(m, w) for w in want + [v.spec("tuple(array)")]) for m in mem) and \
-            any(v.eq(m, want[1]) or v.eq(m, v.spec("tuple(array)")) for m in mem)
+        from ..lib import cond_equiv
+        t_ret = v.ev.term(rets[0].value, at=rets[0])
+        h_ = v.ctx.head_of(t_ret)
+        alts = list(zip(v.ctx.args_of(t_ret)[0::2], v.ctx.args_of(t_ret)[1::2])) if h_ == ("gphi",) else [(None, t_ret)]
+        item, seq = v.spec("array.item()"), [v.spec("tuple(array.tolist())"), v.spec("tuple(array)")]
+        single = v.spec("array.size == 1")
+        ok = any(any(v.eq(m, w) for w in seq) for g, m in alts)
+        for g, m in alts:
+            if v.eq(m, item):
+                # the bare number is returned for exactly one coordinate
+                ok = ok and g is not None and cond_equiv(v, g, single)
+            elif not any(v.eq(m, w) for w in seq):
+                ok = False
     chk.ob("schema::util.util.array2tuple", ok, f"{pid}.schema",
            f"returns `{v.src(rets[0].value) if rets else '?'}`; expected the coordinates in order (a plain number for one coordinate)",
            v.f, rets[0] if rets else None)
